@@ -2033,6 +2033,17 @@ def compress(condition, a, axis=None):
         axis = 0
     axis = validate_axis(axis, a.ndim)
 
+    # Surplus entries of `condition` are ignored like in NumPy, which only
+    # raises when one of them is set (a lazy condition cannot be inspected)
+    if len(condition) > a.shape[axis]:
+        surplus = condition[a.shape[axis] :]
+        if not is_dask_collection(condition) and surplus.any():
+            raise IndexError(
+                f"index {a.shape[axis] + int(surplus.argmax())} is out of "
+                f"bounds for axis {axis} with size {a.shape[axis]}"
+            )
+        condition = condition[: a.shape[axis]]
+
     # Treat `condition` as filled with `False` (if it is too short)
     a = a[
         tuple(
